@@ -29,6 +29,10 @@
                        translated as a function of the bind string as given, the bind string without brackets and the parsed host
   createSocketsCarried the locals of `_create_sockets` whose value can reach an iteration of `for bind in binds:` from an earlier
                        iteration or from in front of the loop (definite-assignment analysis of the loop body; none in the pinned source)
+  configMutableDefaults / configSharedMutations / configClassAccess / configMemoised / quicAddressesReset
+                       (module ConfigState) state of config.py that outlives one Config object or one call: in-place changes
+                       of the mutable class-level defaults of `Config`, attributes reached through the class, memoised
+                       functions, and whether `_set_quic_addresses` starts from a fresh empty list (see `config_state`)
   redirectPathSource   the scope key `HTTPToHTTPSRedirectMiddleware._new_url` builds the path of the Location from
                        (`raw_path` = the request target as sent, or `path` = its percent-decoded form)
 
@@ -657,6 +661,270 @@ def create_sockets_carried(src: Path, ex: Any) -> Optional[List[str]]:
     return carried
 
 
+_MUTATORS = {"append", "extend", "insert", "remove", "pop", "clear", "sort", "reverse", "update", "add", "discard", "setdefault",
+             "popitem", "appendleft", "extendleft", "__setitem__", "__delitem__", "__iadd__", "__ior__"}
+_FRESH_CALLS = {"list", "dict", "set", "sorted", "defaultdict", "deque", "OrderedDict", "bytearray"}
+
+
+def _mutable_value(v: Optional[ast.AST]) -> bool:
+    return isinstance(v, (ast.List, ast.Dict, ast.Set, ast.ListComp, ast.DictComp, ast.SetComp)) or (
+        isinstance(v, ast.Call) and _norm(v.func).split(".")[-1] in _FRESH_CALLS)
+
+
+def config_state(src: Path, ex: Any) -> dict:
+    """State that outlives one `Config` object or one call (C19: a `Config` answers with what ITS OWN settings and ITS OWN last
+    `create_sockets()` ask for).  A list / dict / set bound in the body of `class Config` is ONE object that every instance sees
+    until the instance rebinds the name, so
+
+      configMutableDefaults   the names the class body binds to a mutable value (information);
+      configSharedMutations   (function, attribute): an in-place change (`.append` & co., `x.attr[k] = v`, `del x.attr[k]`,
+                              `x.attr += …`, the same through a local alias `l = x.attr`) of an attribute with such a class-level
+                              default, anywhere in the package, that is not dominated - an earlier statement of the same or an
+                              enclosing block of the same function - by `x.attr = <fresh list/dict/set>` on the same receiver;
+                              likewise a change of a mutable module-level name of config.py from inside a function
+                              (`<module>.NAME`);
+      configClassAccess       (function, attribute): attributes reached through the class from inside `Config`'s methods
+                              (`Config.x`, `cls.x`, `type(self).x`, `self.__class__.x`) other than calling one of the class's
+                              own methods - state kept there is shared by all instances;
+      configMemoised          functions of config.py under `lru_cache` / `cache` / `cached_property`;
+      quicAddressesReset      every store to / in-place change of `_quic_addresses` in the package sits in
+                              `Config._set_quic_addresses`, whose first statement rebinds `self._quic_addresses` to a fresh EMPTY
+                              list and which otherwise only `.append`s to it: the addresses are those of the sockets of THIS call.
+    """
+    out: dict = {"defaults": None, "shared": None, "cls": None, "memo": None, "reset": None}
+    try:
+        tree = ex.parse(src / "config.py")
+    except Exception as e:
+        ex.fail("configSharedMutations", f"config.py: {type(e).__name__}: {e}")
+        return out
+    cls = next((n for n in tree.body if isinstance(n, ast.ClassDef) and n.name == "Config"), None)
+    if cls is None:
+        ex.fail("configSharedMutations", "class Config not found")
+        return out
+    defaults: List[str] = []
+    for st in cls.body:
+        if isinstance(st, ast.Assign) and _mutable_value(st.value):
+            defaults += [t.id for t in st.targets if isinstance(t, ast.Name)]
+        elif isinstance(st, ast.AnnAssign) and isinstance(st.target, ast.Name) and _mutable_value(st.value):
+            defaults.append(st.target.id)
+    # a property over a mutable default (`bind` -> `_bind`) hands out the same object
+    for st in cls.body:
+        if isinstance(st, ast.FunctionDef) and any(_norm(d) == "property" for d in st.decorator_list):
+            rets = [r for r in ast.walk(st) if isinstance(r, ast.Return) and isinstance(r.value, ast.Attribute)]
+            if any(_norm(r.value.value) == "self" and r.value.attr in defaults for r in rets) and st.name not in defaults:
+                defaults.append(st.name)
+    out["defaults"] = sorted(set(defaults))
+    module_mutables = sorted({t.id for st in tree.body if isinstance(st, ast.Assign) and _mutable_value(st.value)
+                              for t in st.targets if isinstance(t, ast.Name)}
+                             | {st.target.id for st in tree.body if isinstance(st, ast.AnnAssign) and isinstance(st.target, ast.Name)
+                                and _mutable_value(st.value)})
+
+    def attr_of(e: ast.AST) -> Optional[tuple]:
+        """`<name>.<attr>` -> (name, attr)"""
+        if isinstance(e, ast.Attribute) and isinstance(e.value, ast.Name):
+            return (e.value.id, e.attr)
+        return None
+
+    def scan_function(fn: ast.AST, where: str, tracked: List[str], module_names: List[str], found: List[tuple]) -> None:
+        local_names = {a.arg for a in fn.args.args + fn.args.kwonlyargs + fn.args.posonlyargs} | {
+            n.id for n in ast.walk(fn) if isinstance(n, ast.Name) and isinstance(n.ctx, ast.Store)}
+        globals_ = {g for n in ast.walk(fn) if isinstance(n, ast.Global) for g in n.names}
+        local_names -= globals_
+
+        def subject(e: ast.AST, rebound: set, alias: dict) -> Optional[tuple]:
+            """the shared thing an expression denotes, when it is one and this function has not rebound it"""
+            a = attr_of(e)
+            if a is not None and a[1] in tracked:
+                return None if a in rebound else a
+            if isinstance(e, ast.Name):
+                if e.id in alias:
+                    return alias[e.id]
+                if e.id in module_names and e.id not in local_names:
+                    return ("<module>", e.id)
+            return None
+
+        def hit(t: Optional[tuple]) -> None:
+            if t is not None:
+                found.append((where, t[1] if t[0] != "<module>" else f"<module>.{t[1]}"))
+
+        def exprs(node: ast.AST, rebound: set, alias: dict) -> None:
+            for n in ast.walk(node):
+                if isinstance(n, ast.Call) and isinstance(n.func, ast.Attribute) and n.func.attr in _MUTATORS:
+                    hit(subject(n.func.value, rebound, alias))
+
+        def block(stmts: List[ast.stmt], rebound: set, alias: dict) -> None:
+            rebound, alias = set(rebound), dict(alias)
+            for s in stmts:
+                if isinstance(s, (ast.FunctionDef, ast.AsyncFunctionDef, ast.ClassDef)):
+                    continue                                   # scanned on their own
+                # header expressions / the whole simple statement
+                if isinstance(s, (ast.If, ast.While)):
+                    exprs(s.test, rebound, alias)
+                elif isinstance(s, (ast.For, ast.AsyncFor)):
+                    exprs(s.iter, rebound, alias)
+                elif isinstance(s, (ast.With, ast.AsyncWith)):
+                    for it in s.items:
+                        exprs(it.context_expr, rebound, alias)
+                elif isinstance(s, ast.Try) or (hasattr(ast, "TryStar") and isinstance(s, getattr(ast, "TryStar"))):
+                    pass
+                elif isinstance(s, ast.Match):
+                    exprs(s.subject, rebound, alias)
+                else:
+                    exprs(s, rebound, alias)
+                    targets: List[ast.AST] = []
+                    if isinstance(s, ast.Assign):
+                        targets = list(s.targets)
+                    elif isinstance(s, (ast.AugAssign, ast.AnnAssign)):
+                        targets = [s.target]
+                    elif isinstance(s, ast.Delete):
+                        targets = list(s.targets)
+                    for t in targets:
+                        for el in (t.elts if isinstance(t, (ast.Tuple, ast.List)) else [t]):
+                            if isinstance(el, ast.Subscript):
+                                hit(subject(el.value, rebound, alias))           # x.attr[k] = v / del x.attr[k]
+                            elif isinstance(s, ast.AugAssign):
+                                hit(subject(el, rebound, alias))                 # x.attr += [...] changes the shared object first
+                    if isinstance(s, ast.Assign) and len(s.targets) == 1:
+                        a = attr_of(s.targets[0])
+                        if a is not None and a[1] in tracked:
+                            reads_itself = any(attr_of(n) == a for n in ast.walk(s.value))
+                            if _mutable_value(s.value) and not reads_itself:
+                                rebound.add(a)
+                            else:
+                                rebound.discard(a)
+                        if isinstance(s.targets[0], ast.Name):
+                            sub = subject(s.value, rebound, alias)
+                            if sub is not None:
+                                alias[s.targets[0].id] = sub
+                            else:
+                                alias.pop(s.targets[0].id, None)
+                # nested blocks see what is rebound so far; what they rebind does not reach the statements after them
+                for name in ("body", "orelse", "finalbody"):
+                    sub_b = getattr(s, name, None)
+                    if isinstance(sub_b, list) and sub_b and isinstance(sub_b[0], ast.stmt):
+                        block(sub_b, rebound, alias)
+                for h in getattr(s, "handlers", []) or []:
+                    block(h.body, rebound, alias)
+                for c in getattr(s, "cases", []) or []:
+                    block(c.body, rebound, alias)
+
+        block(fn.body, set(), {})
+
+    shared: List[tuple] = []
+    try:
+        for path in sorted(src.rglob("*.py")):
+            rel = path.relative_to(src).as_posix()
+            try:
+                t = tree if rel == "config.py" else ast.parse(path.read_text())
+            except SyntaxError as e:
+                ex.fail("configSharedMutations", f"{rel}: {e}")
+                continue
+
+            def walk(node: ast.AST, qual: str) -> None:
+                for ch in ast.iter_child_nodes(node):
+                    if isinstance(ch, (ast.FunctionDef, ast.AsyncFunctionDef)):
+                        name = f"{qual}.{ch.name}" if qual else ch.name
+                        scan_function(ch, name if rel == "config.py" else f"{rel}:{name}", out["defaults"],
+                                      module_mutables if rel == "config.py" else [], shared)
+                        walk(ch, name)
+                    elif isinstance(ch, ast.ClassDef):
+                        walk(ch, f"{qual}.{ch.name}" if qual else ch.name)
+                    else:
+                        walk(ch, qual)
+            walk(t, "")
+        out["shared"] = sorted(set(shared))
+    except Exception as e:
+        ex.fail("configSharedMutations", f"{type(e).__name__}: {e}")
+
+    # attributes reached through the class
+    try:
+        methods = {st.name for st in cls.body if isinstance(st, (ast.FunctionDef, ast.AsyncFunctionDef))}
+        acc: List[tuple] = []
+        for fn in [st for st in cls.body if isinstance(st, (ast.FunctionDef, ast.AsyncFunctionDef))]:
+            is_cm = any(_norm(d) == "classmethod" for d in fn.decorator_list)
+            first = fn.args.args[0].arg if fn.args.args else None
+            called = {id(n.func) for n in ast.walk(fn) if isinstance(n, ast.Call)}
+            for n in ast.walk(fn):
+                if not isinstance(n, ast.Attribute):
+                    continue
+                base = _norm(n.value)
+                through_class = base == "Config" or (is_cm and base == first) or (
+                    first is not None and not is_cm and base in (f"type({first})", f"{first}.__class__"))
+                if through_class and not (id(n) in called and n.attr in methods):
+                    acc.append((f"Config.{fn.name}", n.attr))
+        out["cls"] = sorted(set(acc))
+    except Exception as e:
+        ex.fail("configClassAccess", f"{type(e).__name__}: {e}")
+
+    memo = []
+    for n in ast.walk(tree):
+        if isinstance(n, (ast.FunctionDef, ast.AsyncFunctionDef)):
+            for d in n.decorator_list:
+                dn = _norm(d.func if isinstance(d, ast.Call) else d).split(".")[-1]
+                if dn in ("lru_cache", "cache", "cached_property"):
+                    memo.append(n.name)
+    out["memo"] = sorted(set(memo))
+
+    # `_quic_addresses`: written in `_set_quic_addresses` only, which starts from a fresh empty list
+    try:
+        fn = next((st for st in cls.body if isinstance(st, ast.FunctionDef) and st.name == "_set_quic_addresses"), None)
+        if fn is None:
+            ex.fail("quicAddressesReset", "Config._set_quic_addresses not found")
+        else:
+            body = [st for st in fn.body if not (isinstance(st, ast.Expr) and isinstance(st.value, ast.Constant) and isinstance(st.value.value, str))]
+            me = fn.args.args[0].arg if fn.args.args else "self"
+            first_ok = bool(body) and isinstance(body[0], ast.Assign) and len(body[0].targets) == 1 and \
+                attr_of(body[0].targets[0]) == (me, "_quic_addresses") and _norm(body[0].value) in ("[]", "list()")
+            uses = [n for st in body[1:] for n in ast.walk(st) if isinstance(n, ast.Attribute) and n.attr == "_quic_addresses"]
+            appends = [n for st in body[1:] for n in ast.walk(st) if isinstance(n, ast.Call) and isinstance(n.func, ast.Attribute)
+                       and n.func.attr == "append" and attr_of(n.func.value) == (me, "_quic_addresses")]
+            elsewhere = []
+            for path in sorted(src.rglob("*.py")):
+                t = tree if path == src / "config.py" else ast.parse(path.read_text())
+                inside = {id(n) for n in ast.walk(fn)} if path == src / "config.py" else set()
+                for n in ast.walk(t):
+                    if id(n) in inside:
+                        continue
+                    if isinstance(n, ast.Attribute) and n.attr == "_quic_addresses" and isinstance(n.ctx, (ast.Store, ast.Del)):
+                        elsewhere.append(path.name)
+                    if isinstance(n, ast.Call) and isinstance(n.func, ast.Attribute) and n.func.attr in _MUTATORS and \
+                            isinstance(n.func.value, ast.Attribute) and n.func.value.attr == "_quic_addresses":
+                        elsewhere.append(path.name)
+                    if isinstance(n, ast.Call) and _norm(n.func) in ("setattr", "object.__setattr__") and any(
+                            isinstance(a, ast.Constant) and a.value == "_quic_addresses" for a in n.args):
+                        elsewhere.append(path.name)
+            out["reset"] = bool(first_ok and len(uses) == len(appends) and not elsewhere)
+    except Exception as e:
+        ex.fail("quicAddressesReset", f"{type(e).__name__}: {e}")
+    return out
+
+
+def _config_state_file(cs: dict, ex: Any) -> str:
+    def pairs(l: Optional[list]) -> str:
+        return "[" + ", ".join(f"({ex.q(a)}, {ex.q(b)})" for a, b in (l if l is not None else [("?", "?")])) + "]"
+    return "\n".join([
+        "/- GENERATED by tools/extract.py (tools/extract_pure.py) — state of config.py that outlives one Config object or one call — do not edit -/",
+        "namespace HC.Extracted.ConfigState",
+        "",
+        "/-- names the body of `class Config` binds to a mutable value (one object shared by all instances until an instance rebinds",
+        "    the name), and the properties that hand such an object out -/",
+        "def configMutableDefaults : List String := [" + ", ".join(ex.q(k) for k in (cs["defaults"] or [])) + "]",
+        "/-- (function, attribute): in-place changes of such an attribute (or of a mutable module-level name of config.py) that are not",
+        "    dominated, in the same function, by a rebinding of the attribute on the same receiver to a fresh value (`?` = not read) -/",
+        "def configSharedMutations : List (String × String) := " + pairs(cs["shared"]),
+        "/-- (function, attribute): attributes reached through the class (`Config.x`, `cls.x`, `type(self).x`, `self.__class__.x`) from",
+        "    inside `Config`'s methods, other than calls of the class's own methods -/",
+        "def configClassAccess : List (String × String) := " + pairs(cs["cls"]),
+        "/-- functions of config.py under `lru_cache` / `cache` / `cached_property` -/",
+        "def configMemoised : List String := [" + ", ".join(ex.q(k) for k in (cs["memo"] if cs["memo"] is not None else ["?"])) + "]",
+        "/-- every write to `_quic_addresses` sits in `Config._set_quic_addresses`, which first rebinds `self._quic_addresses` to a fresh",
+        "    empty list and then only appends to it -/",
+        "def quicAddressesReset : Bool := " + ("true" if cs["reset"] else "false"),
+        "",
+        "end HC.Extracted.ConfigState",
+        ""])
+
+
 def redirect_path_source(src: Path, ex: Any) -> Optional[str]:
     fn = ex.find_def(ex.parse(src / "middleware" / "http_to_https.py"), "HTTPToHTTPSRedirectMiddleware", "_new_url")
     if fn is None:
@@ -763,6 +1031,10 @@ def run(src: Path, ex: Any) -> dict:
             "    or from in front of the loop (read where this iteration has not bound them on every path; `?` = a loop that is not read) -/",
             "def createSocketsCarried : List String := [" + ", ".join(ex.q(k) for k in (car if car is not None else ["?"])) + "]"]
     files["ConfigSites"] = files["ConfigSites"].replace("\nend HC.Extracted.ConfigSites\n", "\n".join(more + ["", "end HC.Extracted.ConfigSites", ""]))
+    # C19: state of config.py that outlives one Config object or one call (a module and a tag of its own: HC/Pure/Config.lean,
+    # which many properties import for the response headers, does not depend on it)
+    ex.CURRENT[0] = "ConfigState"
+    files["ConfigState"] = _config_state_file(config_state(src, ex), ex)
     ex.CURRENT[0] = "RedirectSites"
     p = redirect_path_source(src, ex)
     files["RedirectSites"] = _file(
